@@ -104,6 +104,13 @@ class Node(HasTraits):
     mp = Map(MAP_TABLE)
     enum = Enum(ENUM_VALUES)
     lb = List(Tuple(Any(), Float()), maxlen=2)
+    # compound validators with static float ranges (validate_trait_complex, case 4): out-of-range numbers fall through
+    er2 = Either(Range(0.0, 1.0), Range(10.0, 11.0))
+    ers = Either(Range(0.0, 1.0), Str)
+    era = Either(Range(0.0, 1.0), Any)
+    # a delegation cycle: base_trait / validate_trait walk the chain and fail with DelegationError
+    selfref = Instance(HasTraits)
+    cyc = DelegatesTo("selfref")
     pl = PrefixList(PREFIX_CHOICES)
 
     def _a_changed(self, old, new):
@@ -141,6 +148,8 @@ def build(spec, env):
         return env["strs"][spec[1]]
     if k == "b":
         return env["bigs"][spec[1]]
+    if k == "fl":
+        return env["floats"][spec[1]]
     if k == "n":
         return spec[1]
     if k == "t":
@@ -206,9 +215,16 @@ def classify(e):
 
 def run_case(ci, case, progress):
     env = dict(pool=[V(i) for i in range(4)], strs=[rt("s", "tr", str(i)) for i in range(2)],
-               bigs=[2 ** 70 + i for i in range(2)])
+               bigs=[2 ** 70 + i for i in range(2)],
+               floats=[float(x) for x in ("5.5", "10.5", "0.25", "-3.0")])     # fresh (mortal) float objects
     o = Node()
-    measured = env["pool"] + env["strs"] + env["bigs"] + [PFX_NAME, PFX_WILD] + MAP_KEYS + MAP_OBJS + ENUM_OBJS[:2]
+    o.selfref = o          # `cyc` delegates to the object itself: a delegation cycle from the start
+    cyc_traits = []
+    for tr in (Node.__base_traits__.get("cyc"), Node.__class_traits__.get("cyc")):
+        if tr is not None and all(tr is not x for x in cyc_traits):
+            cyc_traits.append(tr)
+    measured = (env["pool"] + env["strs"] + env["bigs"] + [PFX_NAME, PFX_WILD] + MAP_KEYS + MAP_OBJS + ENUM_OBJS[:2]
+                + env["floats"] + cyc_traits)
     mids = [id(x) for x in measured]
     out = []
     getrc = sys.getrefcount
@@ -266,6 +282,12 @@ def run_case(ci, case, progress):
                 o.__dict__["_xd"] = arg           # what the dynamic default of `xdef` will return
             elif kind == "leafset":
                 setattr(o.leaf, op[1], build(op[2], env))
+            elif kind == "selfref":
+                o.selfref = o                      # the object delegates `cyc` to itself: a delegation cycle
+            elif kind == "basetrait":
+                o.base_trait(op[1])
+            elif kind == "vtrait":
+                o.validate_trait(op[1], build(op[2], env))
             elif kind == "gc":
                 gc.collect()
         except BaseException as e:
